@@ -32,6 +32,19 @@ CLAIMED = {
             "Bounded-exhaustive over structure (every field x every boundary value x others minimal/typical, every Option absent), sampled over "
             "large value spaces; the oracle (reference codec in TLA+) is independent of the derive attributes.",
             "DESIGN.md 8 (C01), 5", TB),
+    "C02": ("model_checking",
+            "TLC checks totality of the reference decoder on every (type, small body) state (MC_Decoder); the real decoders and reply parsers "
+            "run on enumerated input families under catch_unwind / counting allocator / watchdog in a debug and a release build; TLC validates "
+            "all anomalies and a sample against the reference (TraceCodec, TraceParse)",
+            "Exhaustive for bodies <= 2 bytes on all 55 packet types and behind all control fields for the 17 reply parsers; every truncation and "
+            "single-byte substitution of a corpus; seeded structure-aware mutations; debug/release parity by outcome hash over every case.",
+            "DESIGN.md 8 (C02)", TB),
+    "C15": ("model_checking",
+            "reply tables in TLA+ (ZvtReplies / ZvtParse); the real zvt_parse of all 17 reply enums on all 65,536 control fields x 4 bodies, "
+            "outcomes compared by TLC (TraceParse sweep mode), table sanity (NoAmbiguity) as TLC assumption",
+            "The control-field space is finite and enumerated completely for every reply parser; content equality with the variant type's own "
+            "decoder is checked for every accepted packet.",
+            "DESIGN.md 8 (C15)", TB),
     "C03": ("model_checking",
             "independent layout table in TLA+ (ZvtLayout.tla) interpreted by the reference codec; byte and field-wise comparison with the real "
             "codec in both directions, judged by TLC (TraceCodec); captured blobs included",
